@@ -75,7 +75,9 @@ func runC41(c *core.Ctx) {
 			return
 		}
 		mustPassChecked(c, fn, "C41/token-saved-under-its-identifier", "esdt.createNewToken/save", nil,
-			func(in ssa.Instruction, cc *ssa.CallCommon) bool { return core.CallDesc(cc).Name == "saveToken" && cc.Args[1] == id },
+			func(in ssa.Instruction, cc *ssa.CallCommon) bool {
+				return core.CallDesc(cc).Name == "saveToken" && cc.Args[1] == id
+			},
 			core.SuccessReturn, nil, "the token is saved (error checked) under the identifier obtained from createNewTokenIdentifier")
 		okRet := true
 		for _, r := range core.Returns(fn) {
@@ -87,8 +89,12 @@ func runC41(c *core.Ctx) {
 		for _, v := range []string{"isTickerValid", "isTokenNameHumanReadable"} {
 			v := v
 			// every path to the identifier creation passes the validation with a true verdict
-			q := core.PathQ{Fn: fn, ViaEdge: edgeFact(func(f core.Fact, _ core.Cond) bool { return f.Op == "T" && strings.Contains(f.A, v+"(") && !strings.HasPrefix(f.A, "!") }),
-				Target: func(in ssa.Instruction, _ *ssa.BasicBlock) bool { return core.IsCall(in, pkg, "esdt", "createNewTokenIdentifier") }}
+			q := core.PathQ{Fn: fn, ViaEdge: edgeFact(func(f core.Fact, _ core.Cond) bool {
+				return f.Op == "T" && strings.Contains(f.A, v+"(") && !strings.HasPrefix(f.A, "!")
+			}),
+				Target: func(in ssa.Instruction, _ *ssa.BasicBlock) bool {
+					return core.IsCall(in, pkg, "esdt", "createNewTokenIdentifier")
+				}}
 			esc, path := q.Escape()
 			c.Check(esc == nil, "C41/well-formed-before-creation", "esdt.createNewToken/"+v, fn.Pos(), v+" holds before an identifier is created", "an identifier can be created without "+v+" having accepted the input: "+c.P.PathString(path))
 		}
